@@ -87,14 +87,14 @@ func (m *CDense) Conj(a CMatrix) {
 // and l-j columns. The final row in the resulting matrix is k-1 and the
 // final column is l-1.
 // Slice panics with ErrIndexOutOfRange if the slice is outside the capacity
-// of the receiver.
+// of the receiver and with ErrZeroLength if it has no rows or no columns.
 func (m *CDense) Slice(i, k, j, l int) CMatrix {
 	return m.slice(i, k, j, l)
 }
 
 func (m *CDense) slice(i, k, j, l int) *CDense {
 	mr, mc := m.Caps()
-	if i < 0 || mr <= i || j < 0 || mc <= j || k < i || mr < k || l < j || mc < l {
+	if i < 0 || mr <= i || j < 0 || mc <= j || k <= i || mr < k || l <= j || mc < l {
 		if i == k || j == l {
 			panic(ErrZeroLength)
 		}
